@@ -85,6 +85,11 @@ def check(ctx, comp, cfg, op, rng, name='', positive=False, small=False):
             ctx.violation(comp, cfg, 'derivative-domain/range', name=name, got=(util.srepr(D.domain, 50), util.srepr(D.range, 50)))
             return
         Dd = D(d)
+        vDd = util.to_cvec(op.range, Dd)
+        vfx = util.to_cvec(op.range, op(x))
+        if not (np.all(np.isfinite(vDd)) and np.all(np.isfinite(vfx))) or (vfx.size and np.abs(vfx).max() > 1e8) or (vDd.size and np.abs(vDd).max() > 1e10):
+            ctx.skip('expression overflows / is numerically explosive at the base point')
+            return
         # additivity of D (real scalar)
         d2 = direction(op.domain, rng)
         lhs = util.to_cvec(op.range, D(1.7 * d + d2))
@@ -94,6 +99,9 @@ def check(ctx, comp, cfg, op, rng, name='', positive=False, small=False):
         ctx.ev('fd-convergence')
         errs = fd.fd_errors(op, op.range, x, d, Dd)
         why = fd.verdict(errs)
+        if why and not fd.quotient_sequence_converged(op.range):
+            ctx.skip('difference quotients do not converge in the step range (oscillatory / explosive expression)')
+            why = None
         if why:
             ctx.violation(comp, cfg, why, name=name, errors=['%.1e' % e for e in errs])
         if op.is_linear:
